@@ -901,21 +901,31 @@ fn main() {
                 ("sort-down", "≡(≡(⊏⍖.)) ↯0_2_0 0", true),
                 ("sort-up", "≡(≡(⊏⍏.)) ↯0_2_2 0", true),
                 ("sortdown-reverse", "≡(≡(⇌⇌⊏⍖.¯)) ↯0_2_0 □0", true),
-                // still open
-                ("conjoin-inventory", "/◇⊂⍚(⊂0) []", true),
-                ("reduce-content", "≡(¤/◇⊂) []", true),
-                ("reduce-content", "/◇⊂ ↯0 □0", true),
+                // repaired in round 7: 69648a7 (split-by), 3000c96 (member of a multi-dimensional range),
+                // 5e4b2d1 (square-abs / power of minus one on no characters; the (-1, Pow) rule is gone),
+                // 9f3362f (the (i, Mul, Add) -> Complex rule is gone)
                 ("split-by-scalar-lit", "⊜□≠@ . [1 2]", false),
                 ("split-by-scalar-lit", "⊜□≠@ . @a", false),
                 ("split-by-scalar-lit", "⊜⧻≠0. 5", false),
                 ("split-by-scalar-lit", "⊜⧻≠0. {1 2}", false),
-                ("square-abs", "×.⌵ [ℂ3 2 ℂ1 2]", false),
+                ("split-by-mask-lit", "⊜□¬⦷\"ab\". □2", false),
                 ("square-abs", "×.⌵ \"\"", true),
                 ("pow-neg1", "ⁿ¯1 \"\"", true),
+                ("pow-neg1", "≡(ⁿ¯1⊂0) \"\"", true),
                 ("complex-i", "+×i NaN 2", false),
                 ("complex-i", "+×i \"\" □\"A\"", true),
                 ("memberof-range-deshape", "∊♭₂⇡ [3 4] \"abc\"", false),
+                ("memberof-range-deshape", "∊♭₂⇡ [1 2] \"\"", true),
                 ("memberof-range-rerank", "∊☇1⇡ [4] \"ab\"", false),
+                // still open
+                ("conjoin-inventory", "/◇⊂⍚(⊂0) []", true),
+                ("reduce-content", "≡(¤/◇⊂) []", true),
+                ("reduce-content", "/◇⊂ ↯0 □0", true),
+                ("square-abs", "×.⌵ [ℂ3 2 ℂ1 2]", false),
+                ("split-by-scalar-lit", "⊜□≠@ . \" \"", false),
+                ("split-by-mask-lit", "⊜□¬⦷\"ab\". \"ab\"", false),
+                ("reduce-depth", "≡(⇌≡/↥) ↯0_1_3 0", true),
+                ("reduce-depth", "≡(□≡/↧↙2) ↯0_1 □0", true),
             ] {
                 progs.push((rule.to_string(), format!("# Experimental!\n{src}\n"), vec![], if empty { vec!["[]".into()] } else { vec![] }));
             }
